@@ -268,6 +268,28 @@ type proxy struct {
 	mu    sync.Mutex
 	conns []net.Conn
 	dead  bool
+	gate  sync.RWMutex // hold(): nothing more is read from the client side until release() (a peer that stops reading)
+}
+
+func (p *proxy) hold()    { p.gate.Lock() }
+func (p *proxy) release() { p.gate.Unlock() }
+
+// gatedCopy is io.Copy that does not read while the proxy is on hold
+func (p *proxy) gatedCopy(dst io.Writer, src io.Reader) {
+	buf := make([]byte, 32<<10)
+	for {
+		p.gate.RLock()
+		p.gate.RUnlock()
+		n, err := src.Read(buf)
+		if n > 0 {
+			if _, werr := dst.Write(buf[:n]); werr != nil {
+				return
+			}
+		}
+		if err != nil {
+			return
+		}
+	}
 }
 
 func startProxy(target string) (*proxy, string) {
@@ -294,7 +316,7 @@ func startProxy(target string) (*proxy, string) {
 			}
 			p.conns = append(p.conns, c, t)
 			p.mu.Unlock()
-			go func() { io.Copy(t, c); t.Close() }()
+			go func() { p.gatedCopy(t, c); t.Close() }()
 			go func() { io.Copy(c, t); c.Close() }()
 		}
 	}()
